@@ -10,6 +10,12 @@ Pairs of faults are sampled.  Judged by Trace_Sys.tla:
   Converged, NoLoss, ReachesQuiet   after the faults stop the sides converge with no user content lost
   AsExpected      ... to exactly the expected tree (these histories are non-conflicting)
 (the loops' survival of arbitrary exceptions is the Runnable property, C18)
+"A file that keeps failing is reported and set aside without stopping other files, and is synchronised once it stops
+failing": the `stuck` family makes every engine write to ONE path on the receiving side raise a temporary error ("locked")
+for 30 fair rounds (token P), then reports progress (OthersNotStarved: by then the two sides differ at that path and below
+it only; FaultNotified at every step that met the error), then lets it succeed (Unstick) and runs to quiet (Converged,
+AsExpected).  Histories: hazard-free one-sided histories of 2 operations, the stuck path is the target of a create / write /
+mkdir of the history.
 """
 import random
 
@@ -18,7 +24,7 @@ from ..runner import main
 from .. import syscheck as sc
 from .. import sysfam
 
-CLAUSES = {"FaultNotified", "Converged", "NoLoss", "ReachesQuiet", "AsExpected", "NoArtefacts", "LastCopy"}
+CLAUSES = {"FaultNotified", "Converged", "NoLoss", "ReachesQuiet", "AsExpected", "NoArtefacts", "LastCopy", "OthersNotStarved"}
 GAPS = ["I", "IS"]
 KINDS = [4, 5, 6, 7]      # temporary, disconnected, token, out of space (sysdrv result codes)
 NEVER = 10 ** 8
@@ -29,6 +35,26 @@ def xsig(case, trace, line):
     esc = any(e["ev"] == "Escape" for e in trace[:line])
     return {"kind": case.get("fkind", 0), "call": ft[-1]["call"] if ft else "", "escaped": esc,
             "mgr": ([e["mgr"] for e in trace[:line] if e["ev"] == "StepBegin"] or [""])[-1]}
+
+
+def stuck_cases(ctx, flavors, limit):
+    base = sc.generate(ctx, "s_one", [1], 2, ["I", "IS"], "std", filt="clean") + sc.generate(ctx, "s_oneR", [2], 2, ["I", "IS"], "std", filt="clean")
+    out = []
+    for c in base:
+        ops = [t for t in c["tokens"] if t[0] == "U"]
+        body = [t for t in c["tokens"] if t[0] not in ("Q", "AQ")]
+        seen = set()
+        for t in ops:
+            sp = t[2][1]
+            under = lambda q: q[:len(sp)] == sp
+            # a move across the boundary of the stuck subtree depends on the stuck path: not an "other file"
+            crossing = any(o[2][0] == "rename" and under(o[2][1]) != under(o[2][2]) for o in ops)
+            if t[2][0] in ("create", "write", "mkdir") and tuple(t[2][1]) not in seen and not crossing:
+                seen.add(tuple(t[2][1]))
+                out.append(dict(c, family="stuck", kase={"kind": "c10s", "stuck": t[2][1]},
+                                tokens=[["P", 1 - t[1], t[2][1]]] + body + [["Prog", 30], ["Unstick"], ["Q"], ["AQ"]]))
+    out, _ = sc.slice_cases(out, limit, key="stuck")
+    return sc.with_flavors(out, flavors)
 
 
 def run(ctx):
@@ -63,6 +89,10 @@ def run(ctx):
     ctx.extra["faults_fired"] = fired
     if fired < len(cases) // 2:
         raise MachineryError("only %d of %d injected faults fired" % (fired, len(cases)))
+    st = stuck_cases(ctx, flavors, 600 if quick else None)
+    straces, _, _ = sc.run_family(ctx, st, "a file that keeps failing", CLAUSES, extra_sig=xsig)
+    ctx.extra["stuck_runs"] = len(st)
+    ctx.extra["stuck_runs_where_the_path_kept_failing"] = sum(1 for t in straces if any(e["ev"] == "Progress" and e["hits"] > 0 for e in t))
 
 
 def replay(ctx, rep):
